@@ -2,6 +2,7 @@ import ZvbiModel.Slicer.BufModel
 import ZvbiModel.Slicer.BufLemmas
 import ZvbiModel.Slicer.BufSpec
 import ZvbiModel.Slicer.LemmasRows
+import ZvbiModel.Generated.SlicerLegacy
 import ZvbiModel.Props.C05
 /-!
 # C05, second part - the public bit slicer entry points: output buffer, points array, accepted parameters
@@ -347,5 +348,75 @@ theorem lowpass_zero_payload_counterexample :
     rfl
 
 example : payloadWrites { Spec.caption525_27_empty_cfg with kind := .core } = [] := by decide +kernel
+
+/-! ## the legacy slicer of decoder.c: the search limit for EVERY line length
+
+`vbi_bit_slicer_init` has no failure path; `slicer->cri_bytes` (an `int`) becomes the `unsigned` trip count of the CRI
+search loop.  `Generated.SlicerLegacy.legacyClamp` is the block of statements that limits it, translated from the current
+src/decoder.c by `translate/gen_slicerlegacy.py`; the theorems below are about that regenerated expression. -/
+
+set_option linter.unusedSimpArgs false in
+/-- The clamp block as written in /repo computes exactly the clamp of the hand-written model (`legacyInit true`):
+    `max 0 (min cri_bytes (raw_samples - look_ahead))` - for all integers. -/
+theorem legacy_clamp_agrees (raw la cb : Int) :
+    Zvbi.Generated.SlicerLegacy.legacyClamp raw la cb = max 0 (min cb (raw - la)) := by
+  simp only [Zvbi.Generated.SlicerLegacy.legacyClamp, Bool.not_eq_true', Bool.and_eq_true, decide_eq_true_eq,
+    decide_eq_false_iff_not, Bool.or_eq_true]
+  repeat' split
+  all_goals omega
+
+example : Zvbi.Generated.SlicerLegacy.legacyClamp 720 709 (720 - 665) = 11 := by decide
+
+/-- For EVERY `raw_samples`, `data_samples` and `look_ahead` (all integers - every service, sampling rate and line
+    length, not only the line lengths the raw decoder passes): the trip count `vbi_bit_slicer_init` leaves is never
+    negative (so the unsigned loop counter never wraps), at most `raw_samples - data_samples` (or 0), and at most
+    `raw_samples - look_ahead` (or 0).  In particular a line too short for the service (`raw_samples < data_samples`,
+    whatever its relation to `look_ahead`) gives 0: the slicer finds nothing and reads nothing. -/
+theorem legacy_cri_bytes_in_range (raw ds la : Int) :
+    0 ≤ Zvbi.Generated.SlicerLegacy.legacyClamp raw la (raw - ds) ∧
+    Zvbi.Generated.SlicerLegacy.legacyClamp raw la (raw - ds) ≤ max 0 (raw - ds) ∧
+    Zvbi.Generated.SlicerLegacy.legacyClamp raw la (raw - ds) ≤ max 0 (raw - la) ∧
+    (raw < ds → Zvbi.Generated.SlicerLegacy.legacyClamp raw la (raw - ds) = 0) := by
+  rw [legacy_clamp_agrees]; omega
+
+/-- Caption 625 at 13.5 MHz, 480 samples: `data_samples` 486 > 480 >= `look_ahead` 475 - the band in which a clamp that
+    only looks at `raw_samples - look_ahead` would leave -6 -/
+example : Zvbi.Generated.SlicerLegacy.legacyClamp 480 475 (480 - 486) = 0 := by decide
+
+/-- The same for the configured legacy slicer of the model, every parameter set (every table row is one): the model's
+    `cri_bytes` IS the regenerated clamp applied to the model's `look_ahead` and `data_samples`, hence within
+    `0 .. max 0 (raw_samples - data_samples)`; the unsigned trip count equals it (`raw_samples` is an `int`). -/
+theorem legacy_init_cri_bytes_in_range (p : LParams) :
+    (legacyInit true p).criBytes =
+      Zvbi.Generated.SlicerLegacy.legacyClamp p.rawSamples
+        ((lastBitSample (legacyInit true p).phaseShift (legacyInit true p).step (legacyInit true p).nBits + 1 : Nat) : Int)
+        ((p.rawSamples : Int) - ((p.rate * (p.payloadBits + p.frcBits) / p.bitRate : Nat) : Int)) ∧
+    0 ≤ (legacyInit true p).criBytes ∧
+    (legacyInit true p).criBytes ≤ max 0 ((p.rawSamples : Int) - ((p.rate * (p.payloadBits + p.frcBits) / p.bitRate : Nat) : Int)) ∧
+    (p.rawSamples < 2147483648 → ((legacyInit true p).iterations : Int) = (legacyInit true p).criBytes) := by
+  have e : (legacyInit true p).criBytes =
+      Zvbi.Generated.SlicerLegacy.legacyClamp p.rawSamples
+        ((lastBitSample (legacyInit true p).phaseShift (legacyInit true p).step (legacyInit true p).nBits + 1 : Nat) : Int)
+        ((p.rawSamples : Int) - ((p.rate * (p.payloadBits + p.frcBits) / p.bitRate : Nat) : Int)) := by
+    rw [legacy_clamp_agrees]
+    simp only [legacyInit, LCfg.nBits]
+    rfl
+  have r := legacy_cri_bytes_in_range p.rawSamples ((p.rate * (p.payloadBits + p.frcBits) / p.bitRate : Nat) : Int)
+    ((lastBitSample (legacyInit true p).phaseShift (legacyInit true p).step (legacyInit true p).nBits + 1 : Nat) : Int)
+  rw [← e] at r
+  refine ⟨e, r.1, r.2.1, ?_⟩
+  intro hraw
+  have hle : (legacyInit true p).criBytes ≤ (p.rawSamples : Int) := by
+    have := r.2.1
+    have h0 : (0 : Int) ≤ ((p.rate * (p.payloadBits + p.frcBits) / p.bitRate : Nat) : Int) := Int.natCast_nonneg _
+    omega
+  unfold LCfg.iterations
+  have h1 := r.1
+  have hU : (U32 : Int) = 4294967296 := rfl
+  rw [hU]
+  omega
+
+example : (legacyInit true { Spec.legacyTeletextB_13_5 with rawSamples := 480 }).criBytes = 0 := by decide +kernel
+
 
 end Zvbi.Props.C05Buf
